@@ -60,7 +60,30 @@ thread_local! {
     static PARK_MS: std::cell::Cell<u64> = const { std::cell::Cell::new(0) };
 }
 
+/// every reader's historical scan is held for so many ms before its first frame (once per reader): what is appended
+/// meanwhile falls into the live part of a subscription whose history is still being replayed
+static HIST_PARK_MS: std::sync::atomic::AtomicU64 = std::sync::atomic::AtomicU64::new(0);
+static HIST_PARKED: Mutex<Vec<u64>> = Mutex::new(Vec::new());
+
 fn on_serve_point(p: &xs::verif::Point) {
+    if p.name == "hist.send" {
+        let ms = HIST_PARK_MS.load(std::sync::atomic::Ordering::SeqCst);
+        if ms > 0 {
+            let first = {
+                let mut g = HIST_PARKED.lock().unwrap();
+                if g.contains(&p.reader) {
+                    false
+                } else {
+                    g.push(p.reader);
+                    true
+                }
+            };
+            if first {
+                std::thread::sleep(std::time::Duration::from_millis(ms));
+            }
+        }
+        return;
+    }
     if p.name == "append.id" {
         let ms = PARK_MS.with(|c| c.replace(0));
         if ms > 0 {
@@ -412,6 +435,10 @@ async fn exec(store: &Store, gate: &Arc<Gate>, kind: &str, op: &Value) -> Value 
             }
             let res: Vec<Value> = joins.into_iter().map(|j| json!(j.join().unwrap_or_default())).collect();
             json!({"ok": res})
+        }
+        "park_hist" => {
+            HIST_PARK_MS.store(op["ms"].as_u64().unwrap_or(0), std::sync::atomic::Ordering::SeqCst);
+            json!({"ok": null})
         }
         "settle" => {
             // wait until the stream has been quiet for `ms` (at most `max_ms`)
